@@ -13,7 +13,7 @@ from .. import engine, expo, obs, ref, world
 ID = "C09"
 LEVEL = "fault_enumeration"
 FORCED_OK = True
-TECHNIQUE = "deterministic simulation with enumerated fault injection: within each generated scenario a probe model is made to raise at every (run, step, model position), one position per simulated execution, cycling through nine exception classes; exposure, sequential observation and parallel observation under the seeded scheduler (failure in the eager first run or in any task under any completion order); oracles over the exception seen by the caller and the probe call log"
+TECHNIQUE = "deterministic simulation with enumerated fault injection: within each generated scenario a probe model is made to raise at every (run, step, model position), one position per simulated execution, cycling through every built-in Exception class constructible from a message (about 45) plus a user-defined class with a two-argument constructor; exposure, sequential observation and parallel observation under the seeded scheduler (failure in the eager first run or in any task under any completion order); oracles over the exception seen by the caller and the probe call log"
 LEVEL_TEXT = "fault enumeration over crash points: all (failing run, step, position) of each generated scenario are injected in turn (bounded per scenario by the tier), classes rotated so that every class meets every mode; schedules for the parallel path are sampled"
 LEVEL_NOTE = "trusted: probe raises exactly at the planned call; calibration phases (initial population / evolution) are injected by the C10/C11 engine (clause C09 there); pygmo re-raises as RuntimeError with embedded traceback, so only message and names are demanded there"
 RULE = (
@@ -28,7 +28,9 @@ ASSUMPTIONS = [
 COMPONENTS = {"real": ["pyxel ModelGroup.run / observation paths / run_mode", "dask get_async error path (pack_exception / raise_exception)"], "stub": ["thread pool", "process-pool pickling of exceptions"]}
 BUDGET = {"quick": {"n": 960, "wall": 110, "determinism": 4}, "thorough": {"n": 24000, "wall": 1600, "determinism": 12}}
 K = {"quick": 12, "thorough": 24}
-EXCS = ["ValueError", "KeyError", "RuntimeError", "ZeroDivisionError", "OSError", "AssertionError", "MemoryError", "StopIteration", "ProbeError"]
+from ..probes import EXC as _EXC  # noqa: E402
+
+EXCS = sorted(_EXC)
 REQUIRED_REACH = ["variant:exposure", "variant:obs-seq", "variant:obs-par", "par_failure_lazy", "par_failure_eager", "later_run_fails"] + ["exc:" + e for e in EXCS]
 
 
@@ -143,7 +145,9 @@ def _notes(exc):
         seen.add(id(e))
         out.extend(getattr(e, "__notes__", []) or [])
         out.append(str(e))
-        e = e.__cause__ or e.__context__
+        out.append(repr(e))  # e.g. an unpickled SyntaxError keeps its message in .args only
+        # follow the chain exactly as a printed traceback would ('raise ... from None' hides the context)
+        e = e.__cause__ if e.__cause__ is not None else (None if e.__suppress_context__ else e.__context__)
     return "\n".join(out)
 
 
